@@ -102,9 +102,43 @@ def exotic_maven(ctx):
                 ctx.divergence("svm_cmp(maven, outside D_mvn)", {"a": strs[k // n], "b": strs[k % n]}, m[k], line)
 
 
+def sort_sequences(ctx):
+    """resolve.SortVersions over lists of different systems that share version strings, in one process:
+    each result must be ascending by its own system's Compare and class-wise equal for a permuted input
+    (comparison must not depend on the history of earlier calls)"""
+    rng = ctx.rng
+    shared = [b"1.0", b"1.0.0", b"1.0.1", b"1.1", b"1.0-rc1", b"1.0.0-1", b"1.0-1", b"2.0", b"1.0.0-alpha", b"1.0-SNAPSHOT", b"1.0rc1",
+              b"1.0.post1", b"1.0.0-rc.1", b"1.10", b"1.2", b"1.0-sp1", b"1.0a1", b"1.0-alpha-1"]
+    cases = []
+    for _ in range(ctx.scale(60, 2000)):
+        seq = []
+        for _ in range(rng.randrange(2, 6)):
+            rs = rng.randrange(3)
+            sysi = {0: 4, 1: 3, 2: 6}[rs]
+            strs = rng.sample(shared, rng.randrange(3, 9)) + [versions.gen(rng, sysi) for _ in range(rng.randrange(0, 4))]
+            if rs == 1:
+                strs = [s for s in strs if versions.in_dmvn(s)]
+            rng.shuffle(strs)
+            seq.append([rs, sorted(set(strs), key=lambda s: rng.random()), [rng.randrange(1 << 20) for _ in range(8)]])
+        cases.append(seq)
+    outs = ctx.impl("sv_sortseq", [sx(c) for c in cases], shards=4)
+    for c, o in zip(cases, outs):
+        r = parse_sx(o)
+        if r and r[0] == b"panic":
+            ctx.violation("resolve.SortVersions panics", sx(c)[:3000])
+            continue
+        for d in r:
+            what = {"unsorted": "resolve.SortVersions result is not ascending by the system's own comparison",
+                    "classes": "resolve.SortVersions yields a different sequence of equivalence classes for another input order"}[d[0].decode()]
+            ctx.violation(what, {"sequence_of_lists": sx(c)[:3000], "list_index": d[1]}, observed=[d[2], d[3]])
+            break
+    ctx.count("sortseq:sequences", len(cases))
+
+
 def run(ctx):
     run_parts(ctx)
     exotic_maven(ctx)
+    sort_sequences(ctx)
     ps = pools(ctx)
     outs = ctx.impl("sv_pool", [sx([sysi, pool]) for sysi, pool in ps], shards=min(16, len(ps)))
     model_args = []
